@@ -27,7 +27,7 @@ def EXHAUSTIVE(tier):
 
 
 def plan(tier):
-    return {"n_random": 240 if tier == "quick" else 0, "item_draws": 2, "time_s": 700 if tier == "quick" else 1750, "shrink_evals": 0}
+    return {"n_random": 480 if tier == "quick" else 0, "item_draws": 2, "time_s": 700 if tier == "quick" else 1750, "shrink_evals": 0}
 
 
 def combos():
